@@ -39,7 +39,16 @@ def run_futures(events, cfg, symbols):
                 v('entry_price_differs', f'{tag}: {sym} entry {pos["entry"]} model {float(mdl.entry[sym])}', ev)
             if pos.get('cur') is not None:
                 mdl.price[sym] = pos['cur']
-        if single and isinstance(acct.get('am'), float):
+        multi_ok = False
+        if not single and acct.get('curs'):
+            # several symbols on one wallet: the mark price of every position at this instant comes with the snapshot
+            for s_, px in acct['curs'].items():
+                if s_ in mdl.price and px is not None:
+                    mdl.price[s_] = px
+            multi_ok = all(mdl.qty[s_] == 0 or acct['curs'].get(s_) is not None for s_ in mdl.qty)
+            if multi_ok:
+                c('session_margin_comparisons_multi_symbol')
+        if (single or multi_ok) and isinstance(acct.get('am'), float):
             amm = mdl.available_margin()
             scale = max(1.0, abs(float(mdl.wallet)))
             c('session_margin_comparisons')
